@@ -3,6 +3,11 @@ import Driver.Plug.Sched
 import Driver.Plug.InlineDepth
 import Driver.Plug.ConVecAlloc
 import Driver.Plug.ConVecGrow
+import Driver.Plug.ParForExec
+import Driver.Plug.ParInvoke
+import Driver.Plug.SmallBuf
+import Driver.Plug.ResPool
+import Driver.Plug.TimedTask
 /-! The list of plug-in models (one import and one entry per model). -/
 namespace Driver
 
@@ -10,7 +15,12 @@ def plugins : List (String × Plug) := [
   ("sched", Driver.PlugSched.plug),
   ("inlinedepth", Driver.PlugInlineDepth.plug),
   ("cvalloc", Driver.PlugConVecAlloc.plug),
-  ("cvgrow", Driver.PlugConVecGrow.plug)
+  ("cvgrow", Driver.PlugConVecGrow.plug),
+  ("parforx", Driver.PlugParForExec.plug),
+  ("pinvoke", Driver.PlugParInvoke.plug),
+  ("smallbuf", Driver.PlugSmallBuf.plug),
+  ("respool", Driver.PlugResPool.plug),
+  ("timedtask", Driver.PlugTimedTask.plug)
 ]
 
 end Driver
